@@ -16,7 +16,7 @@ STUBS = []
 NUMPY_MODELS = []
 BOUNDED_RULE = ('exhaustive: every constructible Cayley table of order <= 120 (S_2..S_5, A_3..A_5, D_3..D_12, C_2..C_12, (Z/n)^* n<=24, Klein, quaternion): Latin square, associativity over ALL element triples, identity, inverses, stated order; '
                 'left-regular form faithful homomorphism over all pairs; irreducible blocks unitary homomorphisms with sum dim^2 = |G| (order <= 24 quick, <= 120 thorough); number of irreps of S_N vs pentagonal recurrence N<=60; '
-                'Young diagrams == set of partitions N<=12; standard Young tableaux of every partition of N<=8 (10 thorough): distinct, standard, count == hook-length formula; Euler totient / primality vs a sieve n<=10^4. '
+                'Young diagrams == set of partitions N<=12; standard Young tableaux of every partition of N<=10 (12 thorough): distinct, standard, count == hook-length formula; Euler totient / primality vs a sieve n<=10^4. '
                 'distinct = distinct tables / N / partitions; non-trivial = order > 1')
 EXPLANATION = ''
 
@@ -259,7 +259,7 @@ def job_number_theory(tier, rng):
 
 def jobs(tier):
     return [('job_tables', {}), ('job_regular_and_irreps', dict(max_order=24 if tier == 'quick' else 120)), ('job_partitions', {}),
-            ('job_tableaux', dict(Nmax=8 if tier == 'quick' else 10)), ('job_number_theory', {})]
+            ('job_tableaux', dict(Nmax=10 if tier == 'quick' else 12)), ('job_number_theory', {})]
 
 
 def replay(rec):
